@@ -211,6 +211,15 @@ def oracle(c, r):
             yield ("compliment", "signed_compliment_2pi(%r) = %r, expected %r" % (a, r["comp"], want))
     elif k == "c18.vec":
         v1, v2 = c["v1"], c["v2"]
+        if "rot90" in r:
+            sc = max(1.0, abs(v1[0]), abs(v1[1]))
+            ccw, cw = [-v1[1], v1[0]], [v1[1], -v1[0]]
+            for nm, want in (("rot90", (ccw, cw)), ("rot270", (cw, ccw))):
+                for got, w, d in zip(r[nm], want, ("Ccw", "Cw")):
+                    if math.hypot(got[0] - w[0], got[1] - w[1]) > 1e-12 * sc:
+                        yield ("quarter-turn", "%s(%s) * %r = %r, a quarter turn that way is %r" % (nm, d, v1, got, w))
+            if r["signs"] != [1.0, -1.0] or r["from_sign"] != [v1[0] >= 0, True, True, True, True]:
+                yield ("direction-sign", "to_sign = %r, from_sign / opposite checks %r for x = %r" % (r["signs"], r["from_sign"], v1[0]))
         n1, n2 = math.hypot(*v1), math.hypot(*v2)
         if n1 < 1e-9 or n2 < 1e-9:
             return
